@@ -2,6 +2,7 @@ import RsModel.Lemmas.TrapsDomain
 import RsModel.Lemmas.TrapsConcat
 import RsModel.Lemmas.EqViews
 import RsModel.Lemmas.ModeTree2
+import RsModel.Lemmas.TrapsOrig
 /-!
 # No trap in `source()` and in the checked parts of `stream_chunks`, for whole trees
 -/
@@ -46,7 +47,7 @@ def Src.SizeOK : Src → Prop
   | .raw _ _ lossy => lossy.length + 2 < 2 ^ 32
   | .rawStr t => t.length + 2 < 2 ^ 32
   | .rawBuf _ lossy => lossy.length + 2 < 2 ^ 32
-  | .orig .. => True
+  | .orig t _ => t.length + 1 < 2 ^ 32
   | .sms t _ map _ _ _ => t.length + 2 < 2 ^ 32 ∧ map.mappings.length + 1 < 2 ^ 32
   | .concat cs => cs.SizesOK
   | .replace inner _ => inner.SizeOK
@@ -82,7 +83,9 @@ theorem Src.streamC_eq (ovf : Bool) : ∀ (s : Src) (o : Opts) (σ : Store), s.N
   | .rawBuf _ lossy, o, σ, _, h, _ => by
     simp only [Src.SizeOK] at h
     simp only [Src.streamC, Src.stream, Chk.streamRawC_total lossy o (by omega)]; rfl
-  | .orig .., o, σ, _, _, _ => rfl
+  | .orig t name, o, σ, _, h, _ => by
+    simp only [Src.SizeOK] at h
+    simp only [Src.streamC, Src.stream, Chk.streamOriginalC_total t name o h]; rfl
   | .sms t name map origSrc inner remove, o, σ, _, h, _ => by
     simp only [Src.SizeOK] at h
     simp only [Src.streamC, Src.stream]
